@@ -51,12 +51,14 @@ func Compare(slice []any, i int, j int, orderBy OrderByDefinition) (bool, error)
 	if err != nil {
 		return false, err
 	}
-	if first == nil {
-		return false, nil
-	}
+	// the key of the other row is read before a NULL decides the order: a row whose key cannot
+	// be read fails the query wherever it stands
 	second, err := ExecReader(slice[j], key)
 	if err != nil {
 		return false, err
+	}
+	if first == nil {
+		return false, nil
 	}
 	if second == nil {
 		return true, nil
